@@ -181,6 +181,12 @@ def make_case(rng, i, tier):
             q = rng.choice(qtypes)
             ops.append([q, p + [rng.choice(V)]])
             ops.append([q, p])
+        elif rng.random() < 0.2:
+            # a cached context, then the context extended by several tokens at once (cold intermediate prefixes), then the context again
+            q = rng.choice(qtypes)
+            ops.append([q, p])
+            ops.append([q, p + [rng.choice(V) for _ in range(rng.choice([2, 3]))]])
+            ops.append([q, p])
     # contexts handed over as ONE Python list that the caller edits in place between queries (append / pop / overwrite)
     list_ctx = rng.random() < 0.2
     return {"id": i, "kind": kind, "shape": shape + ("+list_ctx" if list_ctx else ""), "cfg": desc, "ops": ops, "list_ctx": list_ctx}
